@@ -27,6 +27,11 @@ def run(ctx, rep):
     prog = ctx.program("default")
     rep.configs.append(getattr(ctx, "alias", "default"))
     triangle_edges(prog, rep)
+    try:
+        edge_rasteriser(prog, rep)
+    except Exception as e:
+        import traceback; traceback.print_exc()
+        rep.fail("R19.9", "engine", "edge rasteriser analysis crashed: %r" % (e,), status="undecided")
     winding_symmetry(prog, rep)
     polyline_points(prog, rep)
     outline_runs(prog, rep)
@@ -97,6 +102,96 @@ def triangle_edges(prog, rep):
     rep.check(ok, "R19.1", "contains:edges", "the border check of Triangle::contains must walk the same canonical edges (p1,p2), (p1,p3), (p2,p3) of the (y, x)-sorted vertices as the rasteriser; walks %s" % sorted(set(lines), key=str),
               at=co.span, fn=co.path, detail=sorted(set(lines), key=str))
     # (that sorted_yx really sorts by (y, x) is R19.5, decided over order types)
+
+
+def edge_rasteriser(prog, rep):
+    """R19.9 one rasteriser for edges: `Scanline::bresenham_intersection` extends the scanline only with columns of
+    items of `line.points()` — the Bresenham walk `Line`, `Triangle::contains` and a neighbouring triangle use for the
+    same edge.  A column computed some other way (a slope shortcut for steep edges) is a second rasteriser: its rounding
+    differs from the walk's for some edge, and `points()` / a shared edge no longer agree with `contains()`."""
+    SC = "embedded_graphics::primitives::common::scanline::Scanline"
+    try:
+        f = prog.method1(SC, "bresenham_intersection", None)
+    except Exception as e:
+        rep.fail("R19.9", "edge-rasteriser", "anchor lost: %s" % e, status="undecided")
+        return
+    PASS = {"skip_while", "take_while", "filter", "into_iter", "by_ref", "peekable", "fuse", "copied", "cloned"}
+    line = P(2, "line")
+
+    def chain_root(t):
+        """'ok' if t is an iterator over line.points() through adaptors that only drop whole items by a predicate"""
+        t = strip_refs(t)
+        while t[0] == "call" and t[1].split("::")[-1] in PASS and t[3]:
+            t = strip_refs(t[3][0])
+        if t[0] == "call" and t[1].split("::")[-1] == "points" and len(t[3]) == 1 and strip_refs(t[3][0]) == line:
+            return "ok"
+        if t[0] == "call" and t[1].split("::")[-1] in ("skip", "take", "step_by", "rev", "map", "zip", "chain"):
+            return "other-adaptor"
+        return None
+
+    def classify(v):
+        has_item, foreign = False, None
+        for n in walk(v):
+            if n[0] == "payload" and n[1][0] == "call" and n[1][1].split("::")[-1] in ("next", "next_back", "search::continues") or (n[0] == "payload" and n[1][0] == "call" and n[1][1] == "search::continues"):
+                inner = n[1]
+                while inner[0] == "call" and inner[1] == "search::continues":
+                    inner = inner[3][0]
+                r = chain_root(inner[3][0]) if inner[0] == "call" and inner[3] else None
+                if r == "ok":
+                    has_item = True
+                elif r == "other-adaptor":
+                    foreign = foreign or "an adaptor that can drop or change points of the row"
+            elif n[0] == "param" and n[1] == 2:
+                # the line itself: fine inside the points() chain, foreign as a source of coordinates
+                pass
+        # coordinates read from the line directly (line.start.x + dx)
+        def direct(t, inside_chain=False):
+            if t[0] == "call" and t[1].split("::")[-1] == "points":
+                return False
+            if t[0] == "field" and strip_refs(t[1])[0] == "field" and strip_refs(strip_refs(t[1])[1]) == line:
+                return True
+            if t == line:
+                return True
+            return any(direct(c) for c in t[1:] if isinstance(c, tuple) and c and isinstance(c[0], str)) or \
+                any(direct(c) for cc in t[1:] if isinstance(cc, tuple) and cc and isinstance(cc[0], tuple) for c in cc if isinstance(c, tuple) and c and isinstance(c[0], str))
+        return has_item, foreign, direct(v)
+
+    bad, und, n = [], [], 0
+    try:
+        summs = Paths(prog, loops="once", inline=lambda g: prog.is_new(g)).of(f)
+        fam = [f] + [c for c in prog.closures_of.get(f.id, [])]
+        allsm = [(f, sm) for sm in summs]
+        for c in fam[1:]:
+            try:
+                allsm += [(c, sm) for sm in Paths(prog, loops="once", inline=lambda g: prog.is_new(g)).of(c)]
+            except Unsupported:
+                pass
+    except Unsupported as e:
+        rep.fail("R19.9", "edge-rasteriser", "cannot summarise: %s" % e, status="undecided", at=f.span, fn=f.path)
+        return
+    for g, sm in allsm:
+        vals = [e[1][3][1] for e in sm.calls() if e[1][1].split("::")[-1] == "extend" and len(e[1][3]) == 2]
+        vals += [w[2] for w in sm.writes() if isinstance(w[2], tuple)]
+        for v in vals:
+            if g is not f:
+                # inside a closure of the chain (`for_each(|p| self.extend(p.x))`): the item is the closure's parameter
+                if any(n_[0] == "param" and n_[1] == 2 for n_ in walk(v)):
+                    n += 1
+                continue
+            n += 1
+            has_item, foreign, dr = classify(v)
+            if dr and not has_item:
+                bad.append("the scanline is extended with %s, a column computed from the line's end points instead of an item of line.points()" % show(v, maxd=4)[:160])
+            elif foreign:
+                und.append("the scanline is extended through %s" % foreign)
+            elif not has_item:
+                und.append("the scanline is extended with %s" % show(v, maxd=4)[:160])
+    if bad:
+        rep.fail("R19.9", "edge-rasteriser", "; ".join(sorted(set(bad))[:2]), at=f.span, fn=f.path)
+    elif und or n < 1:
+        rep.fail("R19.9", "edge-rasteriser", "; ".join(sorted(set(und))[:2]) or "no extension of the scanline found", status="undecided", at=f.span, fn=f.path)
+    else:
+        rep.ok("R19.9", "edge-rasteriser", at=f.span, fn=f.path, detail={"extensions": n})
 
 
 def polyline_points(prog, rep):
